@@ -12,6 +12,7 @@ from typing import Mapping
 from typing import TextIO
 
 from .context import RenderContext
+from .exceptions import ContextDepthError
 from .exceptions import LiquidError
 from .exceptions import LiquidInterrupt
 from .exceptions import LiquidSyntaxError
@@ -85,7 +86,14 @@ class Template:
             self,
             global_data=self.make_globals(dict(*args, **kwargs)),
         )
-        self.render_with_context(context, buf)
+        try:
+            self.render_with_context(context, buf)
+        except RecursionError as err:
+            raise ContextDepthError(
+                "maximum recursion depth reached, possible recursive render",
+                token=None,
+                template_name=self.full_name(),
+            ) from err
         return buf.getvalue()
 
     async def render_async(self, *args: Any, **kwargs: Any) -> str:
@@ -98,7 +106,14 @@ class Template:
             self,
             global_data=self.make_globals(dict(*args, **kwargs)),
         )
-        await self.render_with_context_async(context, buf)
+        try:
+            await self.render_with_context_async(context, buf)
+        except RecursionError as err:
+            raise ContextDepthError(
+                "maximum recursion depth reached, possible recursive render",
+                token=None,
+                template_name=self.full_name(),
+            ) from err
         return buf.getvalue()
 
     def render_with_context(
